@@ -55,21 +55,21 @@ Definition tab_ecrecover tab (chain : N) (h : header) : option bytes :=
 Fixpoint list_eqb {A} (eqb : A -> A -> bool) (a b : list A) : bool :=
   match a, b with
   | [], [] => true
-  | x :: a', y :: b' => eqb x y && list_eqb eqb a' b'
+  | x :: a', y :: b' => eqb x y &&& list_eqb eqb a' b'
   | _, _ => false
   end.
 Definition opt_eqb {A} (eqb : A -> A -> bool) (a b : option A) : bool :=
   match a, b with Some x, Some y => eqb x y | None, None => true | _, _ => false end.
-Definition kv_eqb (a b : bytes * bytes) : bool := bytes_eqb (fst a) (fst b) && bytes_eqb (snd a) (snd b).
+Definition kv_eqb (a b : bytes * bytes) : bool := bytes_eqb (snd a) (snd b) &&& bytes_eqb (fst a) (fst b).
 Definition consv_eqb (a b : N * height * bytes) : bool :=
-  key_eqb (snd (fst a)) (snd (fst b)) && (fst (fst a) =? fst (fst b)) && bytes_eqb (snd a) (snd b).
-Definition conse_eqb (a b : bytes * (N * height * bytes)) : bool := consv_eqb (snd a) (snd b) && bytes_eqb (fst a) (fst b).
+  key_eqb (snd (fst a)) (snd (fst b)) &&& (fst (fst a) =? fst (fst b)) &&& bytes_eqb (snd a) (snd b).
+Definition conse_eqb (a b : bytes * (N * height * bytes)) : bool := consv_eqb (snd a) (snd b) &&& bytes_eqb (fst a) (fst b).
 
 Definition ostate_eqb (a b : ostate) : bool :=
-  Bool.eqb (o_exists a) (o_exists b) && opt_eqb Nat.eqb (o_head a) (o_head b)
-  && list_eqb bytes_eqb (o_vals a) (o_vals b) && Bool.eqb (o_rest_same a) (o_rest_same b)
-  && list_eqb kv_eqb (o_recents a) (o_recents b) && opt_eqb (list_eqb bytes_eqb) (o_pending a) (o_pending b)
-  && list_eqb conse_eqb (o_cons a) (o_cons b) && (o_other a =? o_other b).
+  Bool.eqb (o_exists a) (o_exists b) &&& opt_eqb Nat.eqb (o_head a) (o_head b)
+  &&& list_eqb bytes_eqb (o_vals a) (o_vals b) &&& Bool.eqb (o_rest_same a) (o_rest_same b)
+  &&& list_eqb kv_eqb (o_recents a) (o_recents b) &&& opt_eqb (list_eqb bytes_eqb) (o_pending a) (o_pending b)
+  &&& list_eqb conse_eqb (o_cons a) (o_cons b) &&& (o_other a =? o_other b).
 
 (** * Projection of a model state to the observables *)
 Definition render_recents (st : cstore) : list (bytes * bytes) := map (fun e => (recent_key (fst e), snd e)) (recents st).
@@ -185,15 +185,18 @@ Definition eff_limit (epoch num : N) (pre_vals post_vals : list bytes) : N :=
 
 (** entries of the chain that the property forbids the sealer of block [n] to have sealed:
     within the last [limit - 1] blocks and never dropped from the kept window since. *)
-Fixpoint in_window_aux (later_ok : N -> bool) (n limit : N) (ch : list gentry) : list gentry :=
+Fixpoint in_window_aux (bound : Z) (n limit : N) (ch : list gentry) : list gentry :=
+  (* [bound] = max over the later blocks j of (number j - retention limit after j): block k is still kept iff k > bound *)
   match ch with
   | [] => []
   | e :: ch' =>
       let k := snd (ge_key e) in
-      let rest := in_window_aux (fun x => later_ok x && (snd (ge_key e) <? x + ge_eff e)) n limit ch' in
-      if (n <? k + limit) && later_ok k then e :: rest else rest
+      if n <? k + limit then
+        let rest := in_window_aux (Z.max bound (Z.of_N k - Z.of_N (ge_eff e))) n limit ch' in
+        if (bound <? Z.of_N k)%Z then e :: rest else rest
+      else []                                     (* the chain is descending: nothing older is within the limit *)
   end.
-Definition in_window (n limit : N) (ch : list gentry) : list gentry := in_window_aux (fun _ => true) n limit ch.
+Definition in_window (n limit : N) (ch : list gentry) : list gentry := in_window_aux (-1)%Z n limit ch.
 
 Definition cons_has (o : ostate) (k : height) : bool :=
   let ck := cons_key k in existsb (fun e => bytes_eqb (fst e) ck) (o_cons o).
@@ -210,16 +213,31 @@ Section Monitor.
   Variable tab : list (header * (option bytes * option bytes)).
   Variable cs0 : cstate.             (* the client state as created *)
 
+  (** both lists are in store order; [post] must be [pre] with at most one entry removed (the pruned one, which
+      must have been expired) and the entry under [newkey] added / replaced.  Linear walk. *)
+  Fixpoint cons_walk (newkey : bytes) (pre post : list (bytes * (N * height * bytes))) (removed : list (bytes * (N * height * bytes)))
+    : option (list (bytes * (N * height * bytes))) :=
+    match pre with
+    | [] => if forallb (fun f => bytes_eqb (fst f) newkey) post then Some removed else None
+    | e :: pre' =>
+        (fix inner (post : list (bytes * (N * height * bytes))) : option (list (bytes * (N * height * bytes))) :=
+           match post with
+           | [] => cons_walk newkey pre' [] (e :: removed)
+           | f :: post' =>
+               if conse_eqb e f then cons_walk newkey pre' post' removed
+               else if bytes_eqb (fst f) newkey then inner post'
+               else cons_walk newkey pre' post (e :: removed)
+           end) post
+    end.
+
   Definition removed_ok (bt : N) (pre post : ostate) (newkey : bytes) : bool :=
-    (* every consensus state of [pre] is still there unchanged, except at most the FIRST-expired one may be gone;
-       [post] contains nothing else than those and the new entry *)
-    let gone := filter (fun e => negb (existsb (conse_eqb e) (o_cons post))) (o_cons pre) in
-    (match gone with
-     | [] => true
-     | [e] => (add64 (fst (fst (snd e))) (c_trust cs0) <? bt) || bytes_eqb (fst e) newkey
-     | _ => false
-     end)
-    && forallb (fun e => bytes_eqb (fst e) newkey || existsb (conse_eqb e) (o_cons pre)) (o_cons post).
+    match cons_walk newkey (o_cons pre) (o_cons post) [] with
+    | Some [] => true
+    | Some [e] => (add64 (fst (fst (snd e))) (c_trust cs0) <? bt) || bytes_eqb (fst e) newkey
+    | Some [e1; e2] => ((add64 (fst (fst (snd e1))) (c_trust cs0) <? bt) && bytes_eqb (fst e2) newkey)
+                       || ((add64 (fst (fst (snd e2))) (c_trust cs0) <? bt) && bytes_eqb (fst e1) newkey)
+    | _ => false
+    end.
 
   (** kinds: 21 parent link / head, 22 structure, 23 seal / membership, 24 recent-signer window,
       25 difficulty vs turn, 26 validator-set change, 27 pending set, 28 consensus states, 29 a rejected
